@@ -153,6 +153,7 @@ pub fn decode_c12(tape: &[u16]) -> Case {
     let mem_limits = mem_sweep(&mut t);
     let spec = sched_spec(&mut t);
     let mut input = sanitize(input_in(&mut t, &InputOpts { max_frags: 12, ..Default::default() }, enc));
+    input = crate::gens::input::maybe_long(&mut t, input, 15);
     if cfg.adjust_charset && t.chance(2, 3) {
         let meta = *t.pick(&["<meta charset=windows-1251>", "<meta charset=\"utf-8\">", "<meta http-equiv=content-type content=\"text/html; charset=koi8-r\">", "<meta charset=utf-16>", "<meta charset=shift_jis><meta charset=big5>"]);
         let at = crate::tape::frac_to_pos(t.frac(), input.len());
